@@ -88,13 +88,25 @@ func (w *world) shownNodeExists(k string) bool {
 	return ok
 }
 
-// oracleKnode is the Kubernetes node name the controller can determine for a calico node: the
-// mapping it was delivered, else a direct datastore read.
-func (w *world) oracleKnode(cnode string) string {
+// nodeState is what the controller can determine about the owner node of an allocation / block.
+//   - Kubernetes node: name from the mapping it was delivered, else from a direct datastore read of
+//     the Calico Node; the node exists iff the node cache it was shown holds that name.
+//   - Calico Node resource present in the datastore without a k8s orchRef (not orchestrated by
+//     Kubernetes): the controller always reads the datastore for these, so the datastore is the
+//     truth; such a node exists as long as its resource does, and nothing of it may be cleaned up.
+//   - no mapping and no resource: the node is gone.
+func (w *world) nodeState(cnode string) (knode string, exists bool, bare bool) {
 	if k := w.delivNodes[cnode]; k != "" {
-		return k
+		return k, w.shownNodeExists(k), false
 	}
-	return w.calicoNodeK8sName(cnode)
+	inStore, k := w.calicoNodeInStore(cnode)
+	switch {
+	case !inStore:
+		return "", false, false
+	case k == "":
+		return "", true, true
+	}
+	return k, w.shownNodeExists(k), false
 }
 
 func (w *world) justifiedShown(a *valloc, knode string) bool {
@@ -232,8 +244,10 @@ func (w *world) doSync(periodic bool) {
 			if !a.isPod() || a.isTunnel() || a.node() == "" || !scanned[a.node()] {
 				continue
 			}
-			knode := w.oracleKnode(a.node())
-			exists := knode != "" && w.shownNodeExists(knode)
+			knode, exists, bare := w.nodeState(a.node())
+			if bare {
+				continue // the controller skips nodes that Kubernetes does not orchestrate
+			}
 			if w.justifiedShown(a, knode) {
 				validSeen = append(validSeen, a)
 				continue
@@ -364,14 +378,21 @@ func (w *world) onReleaseIPs(opts []ipam.ReleaseOptions) {
 			return
 		}
 		cnode := a.node()
-		oknode := w.oracleKnode(cnode)
-		nodeShown := oknode != "" && w.shownNodeExists(oknode)
+		oknode, nodeShown, bare := w.nodeState(cnode)
 		switch {
 		case a.isTunnel():
 			c.Count("tunnel_release_checks", 1)
+			if bare {
+				c.Count("tunnel_release_checks_non_kubernetes_node", 1)
+				w.viol("tunnel-address-released-node-exists", ex(a), "tunnel address %s of node %s released while its Calico Node resource (not orchestrated by Kubernetes) still exists", a.ip, cnode)
+				return
+			}
 			if nodeShown {
 				w.viol("tunnel-address-released-node-exists", ex(a), "tunnel address %s of node %s released while the node exists in what the controller was shown", a.ip, cnode)
 				return
+			}
+			if in, _ := w.calicoNodeInStore(cnode); !in && w.delivNodes[cnode] == "" {
+				c.Count("tunnel_released_calico_node_gone", 1)
 			}
 			// The owner of a tunnel address is the node, and the node is gone.  Whether something else
 			// on the node currently looks valid is not judged: the controller decides that at the scan
@@ -551,9 +572,13 @@ func (w *world) onReleaseHostAffinities(cfg ipam.AffinityConfig, mustBeEmpty boo
 		return
 	}
 	w.logf("ReleaseHostAffinities %s mustBeEmpty=%v", cfg.Host, mustBeEmpty)
-	knode := w.oracleKnode(cfg.Host)
-	ex := map[string]any{"host": cfg.Host, "knode": knode}
-	if knode != "" && w.shownNodeExists(knode) {
+	knode, exists, bare := w.nodeState(cfg.Host)
+	ex := map[string]any{"host": cfg.Host, "knode": knode, "not_kubernetes": bare}
+	if bare {
+		w.viol("host-affinities-released-node-exists", ex, "ReleaseHostAffinities(%s) while its Calico Node resource (not orchestrated by Kubernetes) still exists: releases every block of a live node, including its last", cfg.Host)
+		return
+	}
+	if exists {
 		w.viol("host-affinities-released-node-exists", ex, "ReleaseHostAffinities(%s) while the node exists in what the controller was shown", cfg.Host)
 		return
 	}
